@@ -10,8 +10,9 @@
       that agrees with the encoder (`wf`).
 -/
 import Wbxml.Lemmas.EncWPos
+import Wbxml.Lemmas.RtExact
 namespace Wbxml.Lemmas.EncW
-open Wbxml Wbxml.Model Wbxml.Spec Wbxml.Lemmas.ParseSer
+open Wbxml Wbxml.Model Wbxml.Spec Wbxml.Lemmas.ParseSer Wbxml.Lemmas.Rt
 open Wbxml.Model.Codec (mbEncode)
 
 structure Seg (c : WCfg) (st st' : WSt) (items : List Item) : Prop where
@@ -372,6 +373,42 @@ def ViewTL (c : WCfg) (parent : Option Name) (l : List Node) (st st' : WSt) (ite
       Pos c ctx parent st.curTag ty pre own slot →
       (evItems ctx own ⟨st.tagPage, st.attrPage⟩ items).1.flatMap toks = (vNodes c parent st.curTag st.tagPage l).1
 
+/-! ### The exact round-trip tree (every language but Wireless Village / OTA settings)
+
+  `xNode c parent cur tp n` is the TREE a reader builds from what the encoder writes for the plain
+  node `n` — same recursion, same position arguments as `vNode`, but it returns a `Node`: element
+  names with their representation (`exactName`: the first row with the page and token of the row
+  found, or a literal), attributes `xAttr` (`exactAName` of `startRow`, value `vAttrValue`),
+  character data `vText`, children folded with `addN` (empty text dropped, adjacent text merged).
+  The tag page is threaded through `vNode`'s second component. -/
+
+mutual
+def xNode (c : WCfg) (parent : Option Name) (cur : Option TagRow) (tp : Nat) : Node → Node
+  | .elt name attrs kids =>
+    .elt (exactName c.lang (foundAt c.lang tp name) name.cName) (xAttrs c attrs)
+      (xKids c (some name) (foundAt c.lang tp name) (pageAfter (foundAt c.lang tp name) tp) kids [])
+  | .text s => .text (vText c parent cur s)
+  | .cdata kids => .cdata kids
+  | .tree l cs r => .tree l cs r
+def xKids (c : WCfg) (parent : Option Name) (cur : Option TagRow) (tp : Nat) : List Node → List Node → List Node
+  | [], acc => acc
+  | n :: r, acc => xKids c parent none (vNode c parent cur tp n).2 r (addN acc (xNode c parent cur tp n))
+end
+
+/-- The children a reader at the same position (`Pos`) reads off the items written for a plain node
+    are the children so far plus the exact node `xNode`. -/
+def TreeT (c : WCfg) (parent : Option Name) (n : Node) (st st' : WSt) (items : List Item) : Prop :=
+  plainNode n = true → isWv c.lang.id = false → (c.lang.id == 1901) = false → st.inCdata = false →
+    ∀ ctx : Ctx, RdT c st'.strtbl ctx → ∀ (ty pre : Bool) (own slot : Option TagRow),
+      Pos c ctx parent st.curTag ty pre own slot → ∀ acc : List Node,
+      kidsOfItems ctx own ⟨st.tagPage, st.attrPage⟩ items acc = addN acc (xNode c parent st.curTag st.tagPage n)
+
+def TreeTL (c : WCfg) (parent : Option Name) (l : List Node) (st st' : WSt) (items : List Item) : Prop :=
+  plainNodes l = true → isWv c.lang.id = false → (c.lang.id == 1901) = false → st.inCdata = false →
+    ∀ ctx : Ctx, RdT c st'.strtbl ctx → ∀ (ty pre : Bool) (own slot : Option TagRow),
+      Pos c ctx parent st.curTag ty pre own slot → ∀ acc : List Node,
+      kidsOfItems ctx own ⟨st.tagPage, st.attrPage⟩ items acc = xKids c parent st.curTag st.tagPage l acc
+
 /-- An element is well-formed for a reader at `Pos` when its attributes are and its content is for
     the reader position of the children. -/
 theorem wfT_elem (c : WCfg) (name : Name) (src : List (Bytes × Bytes)) (st st1 : WSt) (hasC : Bool) (sw tag as)
@@ -418,24 +455,26 @@ theorem encNode_seg :
       ∀ st', encNodeG c parent encEnd n st = .ok st' →
         ∃ items, Seg c st st' items ∧ (isElt n = true → ∃ e, items = [.elem e]) ∧
           st'.curTag = none ∧ ViewN c n st st' items ∧ WfN c parent n st st' items ∧
-          (isTextN n = true → ∀ slot, slotEnd slot items = slot) ∧ ViewT c parent n st st' items) ∧
+          (isTextN n = true → ∀ slot, slotEnd slot items = slot) ∧ ViewT c parent n st st' items ∧
+          TreeT c parent n st st' items) ∧
     (∀ (c : WCfg) (parent : Option Name) (l : List Node) (st : WSt),
       langOk c.lang = true → nodesOver c.lang l = true → StrInv st →
       ∀ st', encNodesW c parent l st = .ok st' →
         ∃ items, Seg c st st' items ∧ ViewL c l st st' items ∧ WfL c parent l st st' items ∧
-          ViewTL c parent l st st' items) := by
+          ViewTL c parent l st st' items ∧ TreeTL c parent l st st' items) := by
   apply encNodeG.mutual_induct
     (motive_1 := fun c parent encEnd n st => encEnd = true →
       langOk c.lang = true → nodeOver c.lang n = true → StrInv st →
       ∀ st', encNodeG c parent encEnd n st = .ok st' →
         ∃ items, Seg c st st' items ∧ (isElt n = true → ∃ e, items = [.elem e]) ∧
           st'.curTag = none ∧ ViewN c n st st' items ∧ WfN c parent n st st' items ∧
-          (isTextN n = true → ∀ slot, slotEnd slot items = slot) ∧ ViewT c parent n st st' items)
+          (isTextN n = true → ∀ slot, slotEnd slot items = slot) ∧ ViewT c parent n st st' items ∧
+          TreeT c parent n st st' items)
     (motive_2 := fun c parent l st =>
       langOk c.lang = true → nodesOver c.lang l = true → StrInv st →
       ∀ st', encNodesW c parent l st = .ok st' →
         ∃ items, Seg c st st' items ∧ ViewL c l st st' items ∧ WfL c parent l st st' items ∧
-          ViewTL c parent l st st' items)
+          ViewTL c parent l st st' items ∧ TreeTL c parent l st st' items)
   · -- element
     intro c parent encEnd name attrs kids st ih hend hl hover hinv st' h
     subst hend
@@ -445,7 +484,7 @@ theorem encNode_seg :
     obtain ⟨st1, h1, h⟩ := bind_ok' h
     obtain ⟨st2, h2, h⟩ := bind_ok' h
     have h3 := ok_inj h
-    obtain ⟨sw, tag, as, hs, hlink, hwfA, hvA⟩ := encElementStartW_spec' c name attrs (!kids.isEmpty) st st1 hl hname hattrs h1
+    obtain ⟨sw, tag, as, hs, hlink, hwfA, hvA, hxA⟩ := encElementStartW_spec' c name attrs (!kids.isEmpty) st st1 hl hname hattrs h1
     have hpageT := tagLink_page c name st sw tag hlink
     have hcur := encElementStartW_cur c _ name attrs _ st st1 h1
     -- the reader's start and end events for this element
@@ -460,7 +499,7 @@ theorem encNode_seg :
       simp only [List.isEmpty_nil, Bool.not_true, Bool.and_false, Bool.false_eq_true, ↓reduceIte] at h3 hs
       subst h3
       refine ⟨_, (Seg.elem_empty c _ _ st st1 sw tag as hs).congr_right rfl rfl rfl rfl rfl, fun _ => ⟨_, rfl⟩, rfl, ?_,
-        ?_, fun h => (by cases h), ?_⟩
+        ?_, fun h => (by cases h), ?_, ?_⟩
       rotate_left
       · intro ty pre htl _ h2 h3 _ ctx hc _ own slot hpos
         rw [validDatetimeAttrs, Bool.and_eq_true] at h2
@@ -480,6 +519,12 @@ theorem encNode_seg :
           simp only [List.nil_append, List.flatMap_cons, List.flatMap_nil, toks, List.append_nil,
             hnm, hvA ctx hr1 hno, vNode, vNodes, foundOf_eq_foundAt]
           rfl
+      · intro _ _ hno _ ctx hr ty pre own slot _ acc
+        have hr1 : RdT c st1.strtbl ctx := hr
+        have hnm := tagLink_exact c name st st1.strtbl sw tag hs.tag hlink hname ctx hr1.lang hl hr1.res
+        rw [kidsOfItems_single, kidOfItem_elem, nodeOfElem_mk, kidsOfContent_none, hnm, hxA ctx hr1 hno,
+          foundOf_eq_foundAt]
+        simp only [xNode, xKids, addN]
       intro _ _ hnta hcd _
       refine ⟨by show st1.inCdata = false; rw [hcur.1, hcd], ?_, ?_⟩
       · rw [opqsItems_single, opqsItem_elem, opqsElem_mk, opqsContent_none, hs.noopq hnta]; rfl
@@ -491,10 +536,10 @@ theorem encNode_seg :
       rfl
     | cons k ks =>
       simp only [List.isEmpty_cons, Bool.not_false, Bool.and_self, ↓reduceIte] at h3 hs
-      obtain ⟨items, hk, hkv, hkw, hkT⟩ := ih st1 hl hkids (hs.tbl.inv hinv) st2 h2
+      obtain ⟨items, hk, hkv, hkw, hkT, hkX⟩ := ih st1 hl hkids (hs.tbl.inv hinv) st2 h2
       subst h3
       refine ⟨_, (Seg.elem_content c _ _ st st1 st2 sw tag as items hs hk).congr_right rfl rfl rfl rfl rfl,
-        fun _ => ⟨_, rfl⟩, rfl, ?_, ?_, fun h => (by cases h), ?_⟩
+        fun _ => ⟨_, rfl⟩, rfl, ?_, ?_, fun h => (by cases h), ?_, ?_⟩
       rotate_left
       · intro ty pre htl h1' h2' h3' h4' ctx hc hsz own slot hpos
         rw [noCdataInTyped] at h1'
@@ -531,6 +576,17 @@ theorem encNode_seg :
           simp only [List.flatMap_cons, List.flatMap_append, List.flatMap_nil, toks, List.append_nil,
             hnm, hvA ctx hr1 hno, hbody, vNode]
           rfl
+      · intro hpn hnw hno hcd ctx hr ty pre own slot hpos acc
+        rw [plainNode] at hpn
+        have hr2 : RdT c st2.strtbl ctx := hr
+        have hr1 : RdT c st1.strtbl ctx := hr2.mono hk.tbl.pre
+        have hnm := tagLink_exact c name st st1.strtbl sw tag hs.tag hlink hname ctx hr1.lang hl hr1.res
+        have hposK := hpos.kids hr1.lang hl name hname st sw tag hlink
+        have hbody := hkX hpn hnw hno (by rw [hcur.1, hcd]) ctx hr2 _ true _ _ (by rw [hcur.2]; exact hposK) []
+        rw [hcur.2, hs.tp, hs.ap ctx, hpageT, foundOf_eq_foundAt] at hbody
+        rw [kidsOfItems_single, kidOfItem_elem, nodeOfElem_mk, kidsOfContent_some, hnm, hxA ctx hr1 hno, hpageT,
+          foundOf_eq_foundAt, hbody]
+        simp only [xNode, addN]
       intro hpn hpl hnta hcd _
       rw [plainNode] at hpn
       obtain ⟨hcd2, _, hnoq, hview⟩ := hkv hpn hpl hnta (by rw [hcur.1, hcd])
@@ -554,7 +610,7 @@ theorem encNode_seg :
     subst h3
     obtain ⟨items, hleaf, ho, htp, hap, ht, hlen, hcdeq, hv, hout, hvT⟩ := encTextW_spec' c parent s st st1 hinv h1
     refine ⟨items, (Seg.leaves c st st1 items hleaf ho htp hap ht hlen).congr_right rfl rfl rfl rfl rfl,
-      fun h => (by cases h), rfl, ?_, ?_, fun _ slot => slotEnd_leaves c st.strtbl slot items hleaf, ?_⟩
+      fun h => (by cases h), rfl, ?_, ?_, fun _ slot => slotEnd_leaves c st.strtbl slot items hleaf, ?_, ?_⟩
     rotate_left
     · intro ty pre htl _ _ h3 h4 ctx hc hsz own slot hpos
       have hc0 : Compat c st.strtbl ctx := by
@@ -569,6 +625,15 @@ theorem encNode_seg :
         intro e he; exact hr.res e (by show e ∈ st1.strtbl; rw [this]; exact he)
       rw [hvT hnw hl hr.tl hcd ctx hr.lang hres own (fun r hr0 => (hpos.cur r hr0).2) hpos.par _]
       simp only [vNode]
+    · intro _ hnw _ hcd ctx hr ty pre own slot hpos acc
+      have hres : Resolves ctx.tbl st.strtbl := by
+        have : st1.strtbl = st.strtbl := ht
+        intro e he; exact hr.res e (by show e ∈ st1.strtbl; rw [this]; exact he)
+      have hv := hvT hnw hl hr.tl hcd ctx hr.lang hres own (fun r hr0 => (hpos.cur r hr0).2) hpos.par
+        ⟨st.tagPage, st.attrPage⟩
+      rw [kidsOfItems_of_view ctx own items _ acc
+        (List.all_eq_true.mpr (fun it hit => leaf_of_Leaf (hleaf it hit))) _ hv]
+      simp only [xNode, addN]
     intro _ hpl _ hcd hbin
     simp only [plainLang, Bool.and_eq_true, Bool.not_eq_true'] at hpl
     obtain ⟨hnoq, hv⟩ := hv hpl.1.1 hpl.1.2 hl hcd hbin
@@ -613,7 +678,8 @@ theorem encNode_seg :
             (by intro it hit; simp only [List.mem_cons, List.mem_nil_iff, or_false] at hit; subst hit; exact .opq cd)
             (by rw [serItems_single, serItem_opq]; rfl) rfl rfl rfl rfl
         refine ⟨_, (hk'.append hop).congr_right rfl rfl rfl rfl rfl, fun h => (by cases h), trivial,
-          fun hp => (by simp [plainNode] at hp), ?_, fun h => (by cases h), fun hp => (by simp [plainNode] at hp)⟩
+          fun hp => (by simp [plainNode] at hp), ?_, fun h => (by cases h), fun hp => (by simp [plainNode] at hp),
+          fun hp => (by simp [plainNode] at hp)⟩
         intro ty pre htl h1' h2' h3' h4' ctx hc hsz own slot hpos
         have hc2 : Compat c st2.strtbl ctx := hc
         obtain ⟨hty, hkids⟩ := hkw' ty pre htl h1' h2' h3' h4' ctx hc2
@@ -626,7 +692,8 @@ theorem encNode_seg :
                          exact List.mem_append_right _ List.mem_cons_self)
       · simp only [hlen, ↓reduceIte]
         refine ⟨items, hk'.congr_right rfl rfl rfl rfl rfl, fun h => (by cases h), trivial,
-          fun hp => (by simp [plainNode] at hp), ?_, fun h => (by cases h), fun hp => (by simp [plainNode] at hp)⟩
+          fun hp => (by simp [plainNode] at hp), ?_, fun h => (by cases h), fun hp => (by simp [plainNode] at hp),
+          fun hp => (by simp [plainNode] at hp)⟩
         intro ty pre htl h1' h2' h3' h4' ctx hc hsz own slot hpos
         exact (hkw' ty pre htl h1' h2' h3' h4' ctx hc hsz own slot hpos).2
   · -- nested tree without language
@@ -648,7 +715,8 @@ theorem encNode_seg :
         (by intro it hit; simp only [List.mem_cons, List.mem_nil_iff, or_false] at hit; subst hit; exact .opq _)
         (by rw [serItems_single, serItem_opq]; rfl) rfl rfl rfl rfl
     refine ⟨_, hop.congr_right rfl rfl rfl rfl rfl, fun h => (by cases h), rfl, fun hp => (by simp [plainNode] at hp),
-      ?_, fun h => (by cases h), fun hp => (by simp [plainNode] at hp)⟩
+      ?_, fun h => (by cases h), fun hp => (by simp [plainNode] at hp),
+          fun hp => (by simp [plainNode] at hp)⟩
     intro ty pre htl h1' _ _ _ ctx hc hsz own slot hpos
     rw [noCdataInTyped] at h1'
     have hty : ty = false := by simpa using h1'
@@ -660,19 +728,22 @@ theorem encNode_seg :
     simp only [encNodesW] at h
     have := ok_inj h
     subst this
-    refine ⟨[], Seg.nil c st, ?_, fun _ _ _ _ _ _ _ _ _ _ _ _ _ => by rw [wfItems], ?_⟩
+    refine ⟨[], Seg.nil c st, ?_, fun _ _ _ _ _ _ _ _ _ _ _ _ _ => by rw [wfItems], ?_, ?_⟩
     · intro _ _ _ hcd hbin
       exact ⟨hcd, hbin, opqsItems_nil, fun ctx _ own => by rw [evItems_nil, srcToksL]; rfl⟩
     · intro _ _ _ hcd
       exact ⟨hcd, by simp only [vNodes], fun ctx _ _ _ own _ _ => by rw [evItems_nil]; simp only [vNodes]; rfl⟩
+    · intro _ _ _ _ ctx _ _ _ own _ _ acc
+      rw [kidsOfItems_nil]
+      simp only [xKids]
   · -- a node and its later siblings
     intro c parent n rest st ih1 ih2 hl hover hinv st' h
     rw [nodesOver, Bool.and_eq_true] at hover
     simp only [encNodesW] at h
     obtain ⟨st1, h1, h⟩ := bind_ok' h
-    obtain ⟨a, ha, _, hcur1, hva, hwa, hta, hvaT⟩ := ih1 rfl hl hover.1 hinv st1 h1
-    obtain ⟨b, hb, hvb, hwb, hvbT⟩ := ih2 st1 hl hover.2 (ha.tbl.inv hinv) st' h
-    refine ⟨a ++ b, ha.append hb, ?_, ?_, ?_⟩
+    obtain ⟨a, ha, _, hcur1, hva, hwa, hta, hvaT, hxa⟩ := ih1 rfl hl hover.1 hinv st1 h1
+    obtain ⟨b, hb, hvb, hwb, hvbT, hxb⟩ := ih2 st1 hl hover.2 (ha.tbl.inv hinv) st' h
+    refine ⟨a ++ b, ha.append hb, ?_, ?_, ?_, ?_⟩
     rotate_left
     · intro ty pre htl h1' h2' h3' h4' ctx hc hsz own slot hpos
       rw [noCdataInTypedL, Bool.and_eq_true] at h1'
@@ -705,6 +776,18 @@ theorem encNode_seg :
         rw [htp1]
       rw [hpg, h2]
       simp only [vNodes]
+    · intro hpn hnw hno hcd ctx hr ty pre own slot hpos acc
+      rw [plainNodes, Bool.and_eq_true] at hpn
+      obtain ⟨hcd1, htp1, _⟩ := hvaT hpn.1 hnw hno hcd
+      have hposN : Pos c ctx parent none ty false own (slotEnd slot a) := hpos.next a false (fun h => by cases h)
+      have h1 := hxa hpn.1 hnw hno hcd ctx (hr.mono hb.tbl.pre) ty pre own slot hpos acc
+      have h2 := hxb hpn.2 hnw hno hcd1 ctx hr ty false own _ (by rw [hcur1]; exact hposN)
+        (addN acc (xNode c parent st.curTag st.tagPage n))
+      rw [hcur1, htp1] at h2
+      have hpg : (⟨st1.tagPage, st1.attrPage⟩ : Pages) = ⟨(vNode c parent st.curTag st.tagPage n).2, st1.attrPage⟩ := by
+        rw [htp1]
+      rw [kidsOfItems_append, ha.pages ctx own, h1, hpg, h2]
+      simp only [xKids]
     intro hpn hpl hnta hcd hbin
     rw [plainNodes, Bool.and_eq_true] at hpn
     obtain ⟨hcd1, hnoq1, hview1⟩ := hva hpn.1 hpl hnta hcd hbin
